@@ -12,7 +12,7 @@ BOUNDS = {
     "bounded_key_bytes_string_vec": "5 strings, invalid UTF-8, 4 byte vectors",
     "bounded_scan_orphans_exact_and_cleanup": "one store with one instance of each reported category",
     "bounded_cas_path_under_non_utf8_root": "one non-UTF-8 root",
-    "bounded_chunked_write_matches_whole": "24 chunkings, contents up to 12 MiB, chunk sizes {0,1,7,4095..8193,64Ki,1Mi,2Mi,4Mi,5Mi,8Mi} incl. round sizes in one call",
+    "bounded_chunked_write_matches_whole": "24 chunkings, contents up to 12 MiB, chunk sizes {0,1,7,4095..8193,64Ki,1Mi,2Mi,4Mi,5Mi,8Mi} incl. round sizes in one call; the chunkings up to 2 MiB again with 5 degenerate byte patterns (all zero, all 0xFF, zero-filled last / first / alternating chunks)",
     "bounded_discover_segments_numeric_order": "11 segment ids incl. 9/10, 99/100, u64::MAX in shuffled creation order + 6 non-segment names",
     "bounded_bulk_delete_reclaims_every_blob": "batches of {1,2,3,5,255,256,257,258,259} distinct blobs",
     "bounded_overlapping_readers_stream_whole_blob": "one blob of 64 KiB + 123 bytes, three overlapping readers + range reads; BufRead consumers on 13 blob sizes 0..8193",
@@ -23,6 +23,7 @@ BOUNDS = {
     "bounded_cleanup_removes_non_regular_strays": "one store with a stray socket, a stray symlink to a directory and a stray regular file",
     "bounded_scan_exact_for_large_index": "2,060 keys with distinct contents; 12 blob files removed at positions around 512/1024/2048",
     "bounded_cas_files_named_after_their_bytes_on_shard_boundaries": "5 blobs on neighbouring shard boundaries found by brute force",
+    "bounded_failed_blob_unlink_is_contained": "one failing unlink of an unreferenced blob (path turned into a directory), then a re-put of the same content, 5 further blob-deleting operations, one reopen",
     "bounded_single_io_fault_is_contained": "5 single faults (WAL append after a mid-segment reopen; snapshot write with / without an earlier snapshot / on a brand-new store; staging write), EFBIG via RLIMIT_FSIZE in a child process",
     "bounded_cleanup_of_staging_leftover_alone": "one store whose only garbage is one staging file of a crashed transaction",
     "bounded_settings_version_gate": "11 foreign or malformed stored version values incl. 2^32+v and 2^64-1",
